@@ -213,6 +213,48 @@ fn main() {
         t
     });
 
+    // S2d: quotients at the machine-word limits against divisors on both sides of one and two words: a = q*b + r
+    // with q = 2^e + d (e in 31, 32, 63, 64, 65, 127, 128), r in {0, 1, b/2, b-1}: the bit-length gap between
+    // dividend and divisor sits on every word boundary, and the quotient is larger / smaller than the divisor's top word
+    let mut qs: Vec<BigInt> = vec![];
+    for e in [31usize, 32, 63, 64, 65, 127, 128] {
+        for d in [-1i64, 0, 1] {
+            qs.push((BigInt::from(1) << e) + d);
+        }
+    }
+    let mut divs: Vec<BigInt> = vec![];
+    for e in [32usize, 63, 64, 65, 96, 127, 128] {
+        for d in [-1i64, 1, 3] {
+            divs.push((BigInt::from(1) << e) + d);
+        }
+    }
+    divs.extend([pow10(19) + 7, big("371896427146091724422131161506"), big("12345678901234567890123")]);
+    run.bound("S2d_word_limit_quotients", qs.len());
+    run.bound("S2d_divisors", divs.len());
+    run.par("S2d word-limit quotients", divs.len(), |i| {
+        let mut t = Tally::default();
+        let b0 = &divs[i];
+        for q in qs.iter() {
+            for r in [BigInt::from(0), BigInt::from(1), b0 / 2, b0 - 1] {
+                let a0 = q * b0 + &r;
+                for (sa, sb, sq) in [(0i128, 0i128, 1), (3, 3, -1), (2, 0, 1), (0, 2, 1)] {
+                    let a = Dec { n: &a0 * sq, s: sa };
+                    let b = Dec { n: b0.clone(), s: sb };
+                    t.states += 1;
+                    t.nontrivial += 5;
+                    for v in check(&fs, &a, &b, &bd(&a), &bd(&b), &mut t) {
+                        run.report(v);
+                    }
+                    let nb = Dec { n: -b0.clone(), s: sb };
+                    for v in check(&fs, &a, &nb, &bd(&a), &bd(&nb), &mut t) {
+                        run.report(v);
+                    }
+                }
+            }
+        }
+        t
+    });
+
     // S3: exact multiples, operands equal up to representation, |a| < |b|
     let mut s3: Vec<(Dec, Dec)> = vec![];
     for n in [1i64, 3, 12, 125, -7, 999] {
